@@ -714,6 +714,144 @@ struct RunOut {
     new_conns: usize,
 }
 
+// ------------------------------------------------------------------------------------------------
+// consecutive lookups on one pool, optionally through the retry layer (`options.attempts`)
+// ------------------------------------------------------------------------------------------------
+
+/// `seq <user|rr> <ncr> <T ms> <attempts|-> <m> <gap ms> <srv>...` — virtual time only
+fn exec_seq(line: &str, t: &[&str], rec: &mut Recorder) {
+    let parsed = (|| {
+        if t.len() < 8 {
+            return None;
+        }
+        let strat = match t[1] {
+            "user" => Strat::User,
+            "rr" => Strat::Rr,
+            _ => return None,
+        };
+        let ncr: usize = t[2].parse().ok()?;
+        let t_ms: u64 = t[3].parse().ok()?;
+        let att: Option<usize> = if t[4] == "-" { None } else { Some(t[4].parse().ok()?) };
+        let m: usize = t[5].parse().ok()?;
+        let gap: u64 = t[6].parse().ok()?;
+        let srvs: Option<Vec<Srv>> = t[7..].iter().map(|s| parse_srv(s)).collect();
+        let srvs = srvs?;
+        if srvs.is_empty() || srvs.len() > 8 || ncr > 8 || t_ms == 0 || m == 0 || m > 8 || gap > 1000 {
+            return None;
+        }
+        if att.unwrap_or(0) > 4 || srvs.iter().any(|s| s.warm > 0) {
+            return None;
+        }
+        Some((Case { paced: false, strat, ncr, t_ms, pre: 0, k: 1, cx: None, srvs }, att, m, gap))
+    })();
+    let Some((c, att, m, gap)) = parsed else {
+        rec.case(line.to_string(), "bad-op".into());
+        rec.stat("bad-op");
+        return;
+    };
+    rec.stat("seq_consecutive_lookups");
+    rec.stat(&format!("seq_attempts_{}", att.map(|a| a.to_string()).unwrap_or_else(|| "none".into())));
+    let r = catch(|| -> Result<(Vec<(String, u64)>, Vec<Ex>), String> {
+        let (env, pool) = build_pool(&c)?;
+        let req = DnsRequest::from_query(Query::new(q_name(), RecordType::A), DnsRequestOptions::default());
+        let fut = async {
+            let mut out = vec![];
+            for _ in 0..m {
+                let r = match att {
+                    None => pool.send(req.clone()).first_answer().await,
+                    Some(a) => hickory_net::xfer::RetryDnsHandle::new(pool.clone(), a).send(req.clone()).first_answer().await,
+                };
+                out.push((classify(&r), sim_now()));
+                VSleep::after(gap * 1000).await;
+            }
+            out
+        };
+        let out = sim_run(fut, false, 20_000).map_err(|e| format!("{e:?}"))?;
+        let log = env.log.lock().unwrap().clone();
+        Ok((out, log))
+    });
+    match r {
+        Err(p) => {
+            let idx = rec.case(line.to_string(), format!("panic {}", p.replace(char::is_whitespace, "_")));
+            rec.fail(idx, format!("the pool panicked: {p}"), "");
+        }
+        Ok(Err(e)) => {
+            let idx = rec.case(line.to_string(), format!("hang {}", e.replace(char::is_whitespace, "_")));
+            rec.fail(idx, format!("a lookup did not complete with an answer or an error: {e}"), "");
+        }
+        Ok(Ok((out, log))) => {
+            let txt = format!(
+                "{} log={}",
+                out.iter().map(|(r, v)| format!("{}@{}", r, v / 1000)).collect::<Vec<_>>().join(";"),
+                log_tok(&log, true)
+            );
+            // requests still in flight when a lookup returns are not modelled: exact only for batches of one
+            let batch1 = c.ncr.max(1) == 1 || c.srvs.len() == 1;
+            let cmp = batch1;
+            if !cmp {
+                rec.impl_only += 1;
+                rec.stat("impl_only_seq_batches_of_several");
+            }
+            let idx = rec.case(line.to_string(), if cmp { txt } else { "~".into() });
+            for e in &log {
+                rec.stat(&format!("exchange_{}_{}", if e.tcp { "tcp" } else { "udp" }, e.rep.tok()));
+            }
+            if log.len() > 1 {
+                rec.nontrivial(idx);
+            }
+            for (r, _) in &out {
+                if !(r.starts_with("ans:") || r.starts_with("err:")) {
+                    rec.fail(idx, format!("lookup completed with neither an answer nor an error: {r}"), "");
+                }
+            }
+        }
+    }
+}
+
+fn build_pool(c: &Case) -> Result<(Arc<Env>, NameServerPool<Prov>), String> {
+    let env = Arc::new(Env {
+        srvs: c.srvs.clone(),
+        pos: Mutex::new(vec![[0, 0]; c.srvs.len()]),
+        log: Mutex::new(vec![]),
+        new_conns: Mutex::new(vec![]),
+        react_late_us: Mutex::new(0),
+    });
+    let prov = Prov { env: env.clone() };
+    let mut opts = ResolverOpts::default();
+    opts.timeout = Duration::from_millis(c.t_ms);
+    opts.num_concurrent_reqs = c.ncr;
+    opts.server_ordering_strategy = match c.strat {
+        Strat::User => ServerOrderingStrategy::UserProvidedOrder,
+        Strat::Rr => ServerOrderingStrategy::RoundRobin,
+        Strat::Qs => ServerOrderingStrategy::QueryStatistics,
+    };
+    let servers: Vec<Arc<NameServer<Prov>>> = c
+        .srvs
+        .iter()
+        .enumerate()
+        .map(|(i, s)| {
+            let mut conns = vec![];
+            if s.udp.is_some() {
+                conns.push(ConnectionConfig::udp());
+            }
+            if s.tcp.is_some() {
+                conns.push(ConnectionConfig::tcp());
+            }
+            let mut pre = vec![];
+            if s.pre_udp {
+                pre.push((hickory_net::xfer::Protocol::Udp, Handle { env: env.clone(), srv: i, tcp: false }));
+            }
+            if s.pre_tcp {
+                pre.push((hickory_net::xfer::Protocol::Tcp, Handle { env: env.clone(), srv: i, tcp: true }));
+            }
+            let cfg = NameServerConfig::new(ip_of(i), s.trust, conns);
+            Arc::new(NameServer::new(pre, cfg, &opts, prov.clone()))
+        })
+        .collect();
+    let tls = TlsConfig::new().map_err(|e| format!("tls {e}"))?;
+    Ok((env, NameServerPool::from_nameservers(servers, Arc::new(PoolContext::new(opts, tls)))))
+}
+
 fn run_case(c: &Case) -> Result<RunOut, String> {
     let env = Arc::new(Env {
         srvs: c.srvs.clone(),
@@ -939,6 +1077,10 @@ pub fn exec(line: &str, rec: &mut Recorder) {
         exec_real(line, &t, rec);
         return;
     }
+    if t.first() == Some(&"seq") {
+        exec_seq(line, &t, rec);
+        return;
+    }
     let Some(c) = parse_case(&t) else {
         rec.case(line.to_string(), "bad-op".into());
         rec.stat("bad-op");
@@ -1139,6 +1281,7 @@ fn real_run(t_ms: u64, d_ms: u64) -> Result<(String, u64, bool), String> {
 // ------------------------------------------------------------------------------------------------
 
 /// first step of the script the pool would use first for this server
+#[allow(dead_code)]
 fn first_rep(s: &Srv) -> Rep {
     match (&s.udp, &s.tcp) {
         (Some(u), _) if !s.pre_tcp || s.pre_udp => u[0].rep,
@@ -1527,6 +1670,47 @@ fn random_a(o: &Opts, rec: &mut Recorder) {
     }
 }
 
+fn random_seq(o: &Opts, rec: &mut Recorder) {
+    let mut r = Rng::new(o.seed ^ 0x5E9);
+    for _ in 0..o.n(3000, 40_000) {
+        let n = r.range(1, 4) as usize;
+        let mut lats = lat_pool(&mut r, 6 * n + 4);
+        let use_pre = r.chance(1, 4);
+        let srvs: Vec<Srv> = (0..n)
+            .map(|_| {
+                let av = r.below(4);
+                let fix = |mut v: Vec<Step>| {
+                    for st in v.iter_mut() {
+                        if st.lat_ms == 0 {
+                            st.lat_ms = 1;
+                        }
+                        // connection-level events matter here: more resets
+                        if st.rep == Rep::Cm {
+                            st.rep = Rep::Rst;
+                        }
+                    }
+                    v
+                };
+                let udp = if av != 2 { Some(fix(gen_script(&mut r, &mut lats, false))) } else { None };
+                let tcp = if av >= 1 { Some(fix(gen_script(&mut r, &mut lats, true))) } else { None };
+                Srv { trust: r.chance(1, 2), warm: 0, pre_udp: use_pre && udp.is_some() && r.chance(1, 2), pre_tcp: use_pre && tcp.is_some() && r.chance(1, 2), udp, tcp }
+            })
+            .collect();
+        let strat = if r.chance(1, 2) { "user" } else { "rr" };
+        let ncr = *r.pick(&[0usize, 1, 1, 1, 1, 2]);
+        let att = match r.below(4) {
+            0 => "-".to_string(),
+            x => (x - 1).to_string(),
+        };
+        let mut line = format!("seq {} {} {} {} {} {}", strat, ncr, BIG_T, att, r.range(1, 4), *r.pick(&[0u64, 1, 10, 100]));
+        for sv in &srvs {
+            line.push(' ');
+            line.push_str(&srv_tok(sv));
+        }
+        exec(&line, rec);
+    }
+}
+
 /// paced (real clock) cases: families around the deadline.  Latencies sit on a coarse grid, the
 /// timeout between grid points, so that every decision has a margin of ≥ 40 ms by construction.
 fn gen_b(o: &Opts) -> Vec<String> {
@@ -1651,6 +1835,8 @@ pub fn run(o: &Opts, rec: &mut Recorder) {
     eprintln!("c18: enumeration {} cases {:?}", rec.cases.len(), t0.elapsed());
     random_a(o, rec);
     eprintln!("c18: +random {} cases {:?}", rec.cases.len(), t0.elapsed());
+    random_seq(o, rec);
+    eprintln!("c18: +seq {} cases {:?}", rec.cases.len(), t0.elapsed());
     run_paced(gen_b(o), rec);
     eprintln!("c18: +paced {} cases {:?}", rec.cases.len(), t0.elapsed());
     exec("real 300 240", rec);
